@@ -23,7 +23,7 @@ Program:
 import decimal
 
 from vf import tagged
-from vf.tagged import Obj
+from vf.tagged import Obj, Chunks
 
 
 def _attrs(a):
@@ -252,26 +252,35 @@ def make_app(b, in_protocol, out_protocol, services=None, name=None):
 
 # ---------------------------------------------------------------- value conversion
 
-def to_native(b, t, v):
-    """reference value (Obj / list / scalar) -> what user code would hold (spyne instances)"""
+def to_native(b, t, v, memo=None):
+    """reference value (Obj / list / scalar) -> what user code would hold (spyne instances).  Objs carrying the same
+    alias become the same instance within one call (memo may be shared across calls by the caller)"""
     if v is None:
         return None
+    if memo is None:
+        memo = {}
     k = t[0]
     if k in ('xa', 'xd', 'm'):
-        return to_native(b, t[1], v)
+        return to_native(b, t[1], v, memo)
     if k == 'a' or k == 'it':
-        return [to_native(b, t[1], x) for x in v]
+        return [to_native(b, t[1], x, memo) for x in v]
     if isinstance(v, (list, tuple)) and not isinstance(v, (bytes,)) and k in ('p', 'c', 'e') and _multi(t):
         t1 = [t[0], t[1], dict((kk, vv) for kk, vv in (t[2] or {}).items() if kk != 'max_occurs')]
-        return [to_native(b, t1, x) for x in v]
+        return [to_native(b, t1, x, memo) for x in v]
     if k == 'c':
         assert isinstance(v, Obj), v
+        if v.alias is not None and v.alias in memo:
+            return memo[v.alias]
         cls = b.classes[v.cls]
         inst = cls()
+        if v.alias is not None:
+            memo[v.alias] = inst
         ftypes = dict(b.flat_fields(v.cls))
         for fk, fv in v.f.items():
-            setattr(inst, fk, to_native(b, ftypes[fk], fv))
+            setattr(inst, fk, to_native(b, ftypes[fk], fv, memo))
         return inst
+    if k == 'p' and t[1] == 'ByteArray' and isinstance(v, Chunks):
+        return v.native()
     if k == 'p' and t[1] == 'ByteArray' and isinstance(v, (bytes, bytearray)):
         return [bytes(v)]
     if k == 'e':
